@@ -98,6 +98,22 @@ func UV(v any) int {
 // X logs the evaluation of a range expression.
 func (r *Rec) X(id int) { r.log("x", id, 0) }
 
+// Ch returns a channel holding one value (select statements).
+func Ch(v int) chan int {
+	ch := make(chan int, 1)
+	ch <- v
+	return ch
+}
+
+// Seq3 is a range-over-func sequence yielding 1, 2, 3.
+func Seq3(yield func(int) bool) {
+	for i := 1; i <= 3; i++ {
+		if !yield(i) {
+			return
+		}
+	}
+}
+
 // Two returns two values from one call (initialisers declaring two names).
 func Two(a, b int) (int, int) { return a + 10, b + 1 }
 
